@@ -20,6 +20,9 @@ Apply(op, a, n) == CASE op = "NextDay" -> StepDay(a, n)
                      [] op = "NextMonth" -> StepMonth(a, n)
                      [] op = "NextYear" -> StepYear(a, n)
                      [] op = "JdRoundTrip" -> a
+                     \* conversions through the lunar / Taoist / Buddhist objects keep the instant
+                     [] op \in {"LunarRound", "LunarCtor", "TaoCtor", "FotoCtor"} -> a
+                     [] op = "LunarNext" -> StepDay(a, n)
 \* is the target of the step inside the supported range (else no claim)
 Defined(op, a, n) ==
   CASE op = "NextMonth" -> YmOfIndex(MonthIndex(YearOf(a.jdn), MonthOf(a.jdn)) + n)[1] \in MinYear..MaxYear
@@ -96,7 +99,83 @@ C04Step ==
         /\ cur' = IF e.p = 0 /\ ValidRes(e.res) THEN InstOfRes(e.res)
                   ELSE IF Defined(e.op, cur, e.n) THEN Apply(e.op, cur, e.n) ELSE cur
 
+(***************************************************************************)
+(* C07: constructors accept exactly what exists.                           *)
+(***************************************************************************)
+\* e.o[i] is the outcome (1 = panic) for day number i - 2, i.e. days -1..33
+C07Civil ==
+  /\ IsEv("C07Civil")
+  /\ LET e == Trace[l]
+     IN Consume(SumN(Len(e.o), LAMBDA i :
+                  LET d == i - 2
+                  IN Chk(IF e.o[i] = 1 THEN "C07.civil.rejected-existing-date" ELSE "C07.civil.accepted-nonexistent-date",
+                         << e.y, e.m, d >>, (e.o[i] = 0) <=> ValidYmd(e.y, e.m, d))))
+  /\ UNCHANGED cur
+
+C07Time ==
+  /\ IsEv("C07Time")
+  /\ LET e == Trace[l]
+     IN Consume(SumSeq(e.t, LAMBDA x :
+                  LET ok == ValidHms(x[1], x[2], x[3])
+                      key == << e.y, e.m, e.d, x[1], x[2], x[3] >>
+                  IN Chk("C07.civil.time-outcome", key, (x[4] = 0) <=> ok)
+                     + (IF x[4] = 0 /\ Len(x) = 10
+                          THEN Chk("C07.civil.fields", key, << x[5], x[6], x[7], x[8], x[9], x[10] >> = << e.y, e.m, e.d, x[1], x[2], x[3] >>)
+                          ELSE 0)))
+  /\ UNCHANGED cur
+
+\* the lunar (year, month, day) triples that are the image of some civil day
+C07Lunar ==
+  /\ IsEv("C07Lunar")
+  /\ LET e == Trace[l]
+         okImg == \A i \in 1..Len(e.img) : e.img[i][4] = 0
+         Img == { << x[6], x[7] >> : x \in { e.img[i] : i \in { k \in 1..Len(e.img) : e.img[k][4] = 0 /\ e.img[k][5] = e.y } } }
+         \* civil day (jdn) of an image triple
+         JdnOf(m, d) == LET x == CHOOSE z \in { e.img[i] : i \in 1..Len(e.img) } : z[4] = 0 /\ z[5] = e.y /\ z[6] = m /\ z[7] = d
+                        IN JDN(x[1], x[2], x[3])
+         \* accepted (month, day) pairs of a 26 x 32 outcome table (months -12..13, days 0..31)
+         AccSet(rows) == { p \in { << m, d >> : m \in -12..13, d \in 0..31 } : rows[p[1] + 13][p[2] + 1] = 0 }
+         Rows(name, rows) == LET acc == AccSet(rows)
+                             IN Chk("C07." \o name \o ".rejected-existing-date", << e.y, Img \ acc >>, Img \ acc = {})
+                                + Chk("C07." \o name \o ".accepted-nonexistent-date", << e.y, acc \ Img >>, acc \ Img = {})
+     IN Consume(Chk("C07.lunar.image.panic", e.y, okImg)
+                + Rows("lunar", e.lunar) + Rows("tao", e.tao) + Rows("foto", e.foto)
+                + SumSeq(e.got, LAMBDA x :
+                    LET key == << e.y, x[1], x[2] >>
+                    IN Chk("C07.lunar.fields", key, << x[3], x[4], x[5], x[6], x[7], x[8] >> = << e.y, x[1], x[2], 7, 8, 9 >>)
+                       + (IF << x[1], x[2] >> \in Img /\ ValidRes(<< x[9], x[10], x[11], x[12], x[13], x[14] >>)
+                            THEN Chk("C07.lunar.civil-day", key, JDN(x[9], x[10], x[11]) = JdnOf(x[1], x[2]) /\ << x[12], x[13], x[14] >> = << 7, 8, 9 >>)
+                            ELSE Chk("C07.lunar.civil-day", key, << x[1], x[2] >> \notin Img)))
+                + SumSeq(e.t, LAMBDA x :
+                    LET ok == ValidHms(x[1], x[2], x[3]) /\ << 1, 1 >> \in Img
+                        key == << e.y, x[1], x[2], x[3] >>
+                    IN Chk("C07.lunar.time-outcome", key, (x[4] = 0) <=> ok)
+                       + Chk("C07.tao.time-outcome", key, (x[5] = 0) <=> ok)
+                       + Chk("C07.foto.time-outcome", key, (x[6] = 0) <=> ok)))
+  /\ UNCHANGED cur
+
+C07Start ==
+  /\ IsEv("C07Start")
+  /\ LET e == Trace[l]
+     IN /\ Consume(Chk("C07.chain.start", e.at, ValidRes(e.at)))
+        /\ cur' = IF ValidRes(e.at) THEN InstOfRes(e.at) ELSE cur
+
+\* shape of a lunar-side object met on the way (its exact validity against the
+\* month tables is C01 / C06; here: no field outside its type)
+LunarShape(x, a) == /\ (x[2] \in 1..12 \/ -x[2] \in 1..12) /\ x[3] \in 1..30
+                    /\ Sod(x[4], x[5], x[6]) = a.sod
+C07Step ==
+  /\ IsEv("C07Step")
+  /\ LET e == Trace[l]
+         key == << e.k, l, Fields(cur), e.op, e.n >>
+         t == IF Defined(e.op, cur, e.n) THEN Apply(e.op, cur, e.n) ELSE cur
+     IN /\ Consume(StepChecks("C07.chain." \o e.op, key, cur, e)
+                   + (IF e.p = 0 /\ Len(e.lun) = 6 /\ Defined(e.op, cur, e.n)
+                        THEN Chk("C07.chain.lunar-shape", << key, e.lun >>, LunarShape(e.lun, t)) ELSE 0))
+        /\ cur' = IF e.p = 0 /\ ValidRes(e.res) THEN InstOfRes(e.res)
+                  ELSE IF Defined(e.op, cur, e.n) THEN Apply(e.op, cur, e.n) ELSE cur
+
 TraceInit == KitInit /\ cur = Inst(JdnMin, 0)
-TraceNext == C04Day \/ C04Edge \/ C04Start \/ C04Step
+TraceNext == C04Day \/ C04Edge \/ C04Start \/ C04Step \/ C07Civil \/ C07Time \/ C07Lunar \/ C07Start \/ C07Step
 TraceSpec == TraceInit /\ [][TraceNext]_tvars
 =============================================================================
